@@ -128,10 +128,14 @@ def newArc (s : St) (e : Nat) : Nat × St :=
 def killStorage (s : St) (e : Nat) : St :=
   { s with alive := upd s.alive e false, storage := upd s.storage e none }
 
+/-- What dropping the callback of system `e` shows: the scripted closures carry a `Drop` canary; a system made from a
+    zero-sized function item carries nothing. -/
+def canaryEv (s : St) (e : Nat) : Ev := if (s.info e).zst then .noCanary e else .canary e
+
 /-- Dropping `SystemCommandStorage` with a present callback drops the system state (canary). -/
 def killCanary (s : St) (e : Nat) : St :=
   match s.storage e with
-  | some true => s.emit (.canary e)
+  | some true => s.emit (canaryEv s e)
   | _ => s
 
 /-- `EntityReactors` is dropped: its handles are released. -/
